@@ -1136,6 +1136,28 @@ class SubsFamily(ReorgFamily):
                 plan.append(dict(op='wait', dt=rng.choice([20.0, 40.0])))
                 plan.append(dict(op='settle'))
                 continue
+            if rng.random() < 0.12:
+                # motif: a new block, the header read at the start of its notification round - driven by the mempool
+                # task - is slow, and while it is parked the daemon moves to a competing block of the same height and
+                # the operator's reorg makes the server follow: the round resumes with the header of the orphaned block
+                # after the reorganisation (which ends at the height it started from) has been signalled
+                k['stall_boost'] = ('read_headers', rng.choice([0.6, 0.9]), rng.choice(['MemPool', 'MemPool', '']), 'timed')
+                k['stall_p'] = 0.0
+                k['preempt'] = True
+                k['stall_max'] = rng.choice([12.0, 12.0, 30.0])
+                tq = round(rng.uniform(0.2, 2.0), 2)
+                plan.append(dict(op='mine', n=1, ntx=[rng.randint(1, 5)], at=tq, seed=rng.getrandbits(32),
+                                 confirm=rng.choice([0.0, 1.0])))
+                tf = round(tq + rng.uniform(1.0, 14.0), 2)
+                plan.append(dict(op='fork', depth=1, extra=0, ntx=[rng.randint(1, 5)], remine=rng.choice([0.0, 0.5]), at=tf,
+                                 seed=rng.getrandbits(32)))
+                plan.append(dict(op='admin_reorg', n=1, at=round(tf + rng.uniform(0.2, 3.0), 2)))
+                if rng.random() < 0.5:
+                    plan.append(dict(op='mp_add', n=rng.randint(1, 2), chain=0.0, seed=rng.getrandbits(32),
+                                     at=round(tq + rng.uniform(0.0, 10.0), 2)))
+                plan.append(dict(op='wait', dt=rng.choice([25.0, 45.0])))
+                plan.append(dict(op='settle'))
+                continue
             if rng.random() < 0.15:
                 # motif: parent and child in the mempool, a subscriber of the child's output script; a block
                 # confirming only the parent is found between the mempool listing and the height request of
